@@ -10,7 +10,7 @@ CLAIMED = {
    note="Trusts the list model written from the property text; power-loss durability is C10's side; time-based trimming is observed via the hook wal.trim.tick.",
    technique="reference-model monitor over seeded op sequences + invariant hook + race detector"),
  "C10": dict(engine="walmodel", level="fault_enumeration",
-   text="For each generated WAL (v2 written by the real code, v1 segments written with the v1 codec) every subset of differing 4KiB pages of the unsynced tail (<=8 pages; sampled above) is persisted and reopened, and a fixed table of header-field values plus zero/random/bit-flip damage is applied to selected committed and uncommitted records and index files; each reopened copy is read back entry by entry and compared bit-for-bit with what was appended. Panics are caught per reopen, runaway recovery by a watchdog with heap-growth evidence.",
+   text="For each generated WAL (v2 written by the real code, v1 segments written with the v1 codec) every subset of differing 4KiB pages of the unsynced tail (<=8 pages; sampled above) is persisted and reopened, and a fixed table of header-field values plus zero/random/bit-flip damage is applied to selected committed and uncommitted records and index files (also a damaged record together with a torn index file of its closed segment, so that the index is rebuilt over the damage); each reopened copy is read back entry by entry and compared bit-for-bit with what was appended. Panics are caught per reopen, runaway recovery by a watchdog with heap-growth evidence.",
    note="Page granularity 4KiB is assumed; the commit-offset provider is truthful (component level); file truncation is not generated (the property lists torn writes, zeroed and random bytes).",
    technique="fault injection (page-subset crash images, header/payload/index corruption) + bit-exact read-back oracle"),
  "C18": dict(engine="coordpure", level="exploration",
@@ -31,14 +31,14 @@ CLAIMED = {
    technique="hostile-input fault injection + total-function oracle (no error / no panic / restartable / replayable)"),
  "C15": dict(engine="kvmodel", level="exploration",
    text="Seeded write sequences with records declaring entries in index names that are adjacent in key order; after every request the raw index entries equal the model's derived view and a battery of list / range-scan / comparison gets per index (probes at, between, below the first and above the last entry, and on an index that does not exist) equals a sorted reference restricted to that index.",
-   note="Secondary keys without '/' (where the order inside an index is unambiguous); for comparison gets the reference fixes the secondary key and accepts any primary carrying it (ties are not specified by the property).",
+   note="In every third case the secondary keys and probes contain '/': inside one index the reference orders entries by the store's hierarchical key order of the secondary key (the order the server itself applies in doSecondaryGet), by an independent implementation; for comparison gets the reference fixes the secondary key and accepts any primary carrying it (ties are not specified by the property).",
    technique="reference-model monitor + derived-view invariant on the raw DB"),
  "C16": dict(engine="kvmodel", level="exploration",
-   text="Sequential puts on prefixes with 1..3 levels are compared with exact math/big arithmetic and checked for freshness against the state before each put; subscribers are opened at seeded moments and held by hooks in the windows of GetSequenceUpdates while puts complete, and at quiescence (all writes returned) the last value of each subscriber must be the latest generated key. Subscriber part runs under the race detector.",
+   text="Sequential puts on prefixes with 1..3 levels are compared with exact math/big arithmetic and checked for freshness against the state before each put; subscribers are opened at seeded moments and held by hooks in the windows of GetSequenceUpdates while puts complete, and at quiescence (all writes returned) the last value of each subscriber must be the latest generated key. A third part sends requests carrying sequential puts on several prefixes at once (one prefix a textual prefix of another), with a subscriber per prefix: every subscriber receives only keys of its own prefix, in order, ending with that prefix's latest. Subscriber part runs under the race detector.",
    note="'Eventually observes' is restated as 'at quiescence'; the hold is placed on the subscriber side only (writer-side window between notification and commit is not widened).",
    technique="reference-model monitor (exact arithmetic) + hook-widened interleavings with a quiescence oracle + race detector"),
  "C17": dict(engine="kvmodel", level="exploration",
-   text="Per committed request the reference model yields the expected notification batch; a subscriber reading through GetNotifications is cut and resumed with the last offset it saw at seeded points (one across a restart into a new term), with a hook widening the reader's check-then-wait window; order, exactly-one-batch-per-request, content, no internal keys, no loss/duplicate across resumptions are checked, and a stalled delivery is confirmed by logical evidence (it resumes only when one more request is committed). Trimming is exercised on a bare DB with a mocked clock: every batch inside retention must still be delivered.",
+   text="Per committed request the reference model yields the expected notification batch; a subscriber reading through GetNotifications is cut and resumed with the last offset it saw at seeded points (one across a restart into a new term), with a hook widening the reader's check-then-wait window; order, exactly-one-batch-per-request, content, no internal keys, no loss/duplicate across resumptions are checked, and a stalled delivery is confirmed by logical evidence (it resumes only when one more request is committed). Trimming is exercised on a bare DB with a mocked clock: every batch inside retention must still be delivered, including one committed from a hook between a trimming round's scan and its range delete.",
    note="The RF=1 parts cannot show uncommitted requests; a fourth part (C17.repl, three real nodes) covers them: a subscriber starting 'now' while appended requests are uncommitted must not be positioned beyond the commit offset, nothing above it is delivered meanwhile, and subscribers resume on another node after an election without loss or duplicate. Delivery of the last batch is judged at quiescence.",
    technique="reference-model monitor over the notification stream + hook-widened interleaving + resumption oracle"),
  "C11": dict(engine="kvorder", level="exploration",
@@ -78,7 +78,7 @@ CLAIMED = {
    note="Per-key partitioning (list / range-scan / delete-range are checked sequentially by C12 and for durability by C01, not for linearizability); checker timeout (60 s) is inconclusive. Conditional puts are modelled on values (version ids and values are 1:1, which is itself checked).",
    technique="recorded client history + porcupine linearizability check (per-key register model with stale-read allowance) under fault injection + race detector"),
  "C14": dict(engine="kvmodel", level="exploration",
-   text="Three parts on an RF=1 leader (real WAL, Pebble, session manager). (1) Session-centred seeded sequences over few keys (ephemeral puts, take-overs by other sessions and plain puts, deletes, ranges, writes naming closed/unknown sessions, CloseSession, leader restarts into a new term); after every step responses and the raw database (records with owner, session keys, exactly one shadow key per owned record) are compared with the reference model. (2) Cleanup against concurrent writers: the hook between listing a session's keys and the cleanup write runs 1..4 writes of other clients (and of the closing session) on those keys, for CloseSession and for real expiry; answers and final state must match the model for some position of an atomic close in that sequence. (3) Real 2 s sessions with seeded heartbeat schedules and a leader restart, polled every 10 ms: no expiry unless a full timeout without (re)arming can have elapsed, records gone in the same observation as the session, writes naming the expired session refused.",
+   text="Three parts on an RF=1 leader (real WAL, Pebble, session manager). (1) Session-centred seeded sequences over few keys (ephemeral puts, take-overs by other sessions and plain puts, deletes, ranges, writes naming closed/unknown sessions, CloseSession, leader restarts into a new term); after every step responses and the raw database (records with owner, session keys, exactly one shadow key per owned record) are compared with the reference model. (2) Cleanup against concurrent writers: the hook between listing a session's keys and the cleanup write runs 1..4 writes of other clients (and of the closing session) on those keys (every fifth case: the session owns nothing at the listing and gets its first records in that window), for CloseSession and for real expiry; answers and final state must match the model for some position of an atomic close in that sequence. (3) Real 2 s sessions with seeded heartbeat schedules and a leader restart, polled every 10 ms: no expiry unless a full timeout without (re)arming can have elapsed, records gone in the same observation as the session, writes naming the expired session refused.",
    note="Timers are real (no clock is injectable in session.go): the expiry part measures time, with the heartbeat's send time as the conservative bound; late expiry is counted, not judged. Leader change is a restart of the single node into a new term; multi-node failover with sessions in the log is covered by the C06 routes.",
    technique="reference-model monitor + hook-driven interleaving with an atomicity oracle (all linearization points tried) + timed observation of real session timers"),
  "C20": dict(engine="client", level="exploration",
